@@ -54,6 +54,18 @@ Theorem softmax_finite_only_refuted :
 Proof. exact softmax_finite_only_refuted_l. Qed.
 Print Assumptions softmax_finite_only_refuted.
 
+(* where the scale factor enters and which transforms exist: GENERATED facts (the translator matches the
+   three transform bodies textually and requires a single use of config.scale, before the match) *)
+Theorem weight_rule :
+  stochastic_scale = ScaleBeforeTransform /\
+  stochastic_transforms = [TrLinearMinMax; TrSoftmax; TrRawClamp] /\
+  stochastic_keys = KLogUOverW /\ softmax_keys = KLogUOverW /\
+  (forall scale valid, weights TLinear (scaled_scores scale valid) = linear_weights (scaled_scores scale valid)) /\
+  (forall scale valid, weights TRaw (scaled_scores scale valid) = scaled_scores scale valid) /\
+  (forall scale i q x, scaled_scores scale [(i, SNum q, x)] = [(q * scale)%Q]).
+Proof. exact weight_rule_l. Qed.
+Print Assumptions weight_rule.
+
 Theorem selection_valid_random : forall items n config_n,
   NoDup (map r_id items) ->
   let N := Z.of_nat (length items) in
